@@ -35,6 +35,7 @@ OUTSIDE = ["relocation types without an entry in ref/relocspec.py (generic littl
            "relaxable relocation types cb_imm11/cbl_imm11 (decided under C13)", "whole-program shapes (several objects/sections): placement is C12's subject"]
 ASSUMPTIONS = ["base encoding of the relocated instruction = what the real instruction class emits for a label operand",
                "memory bases are multiples of 4 and the sections' alignment is 4, so the oracle placement is base + offset (checked against the linker's own symbol table, not assumed)",
+               "relocation types whose target is computed modulo 2**32 (spec key wrap: mips abs26, microblaze 64_PCREL, xtensa call0/ri16, m68k branch_rel32): S and P are assumed to lie in the 32-bit address space",
                "any exception counts as 'the link fails'"]
 SHIMS_USED = ["isinstance", "int", "range", "bytes", "bytearray", "struct", "bool", "min", "max"]
 
